@@ -169,7 +169,12 @@ func (g *stGen) event() stEvent {
 		g.ids = append(g.ids, id)
 		return evSessionEstablished(g.client(id), false)
 	case 2:
-		return evWillSent(g.client(id), r.Intn(4) == 0)
+		to := r.Intn(4) == 0
+		cl := g.client(id)
+		if to {
+			cl.Stop(packets.ErrSessionTakenOver)
+		}
+		return evWillSent(cl, to)
 	case 3, 4:
 		to := r.Intn(3) == 0
 		cl := g.client(id)
